@@ -32,7 +32,7 @@ SPEC = {
             "nontrivial": _c08_nontrivial, "stat": _c08_stat,
         }],
         "rule": "regression corpus + grid over boundary clocks/increments/movetime/plies + seeded random points "
-                "(both colours, plies 0..699, values up to 2^40 ms); a case is non-trivial when the mover's clock "
+                "(both colours, plies 0..699, values up to 2^40 ms, one pick in five up to 2^61 so that the int64 wraps of the sum and the product are exercised); a case is non-trivial when the mover's clock "
                 "or movetime is positive (a premise of the property applies); distinct = distinct input tuples",
-        "assumptions": ["inputs below 2^40 ms (the no-overflow lemma's range); Go int is 64 bit"],
+        "assumptions": ["Go int is 64 bit; the bounds are proved for every int64 input (C08_budget_margin_any_i64), the wrap-free formula for inputs below 2^40 ms"],
     }
